@@ -45,6 +45,7 @@ type shOp struct {
 	Path  string   `json:"path"`  // fs
 	Epoch string   `json:"epoch"` // fs: new value of VERIF_FS_EPOCH
 	Probe []string `json:"probe"` // call/direct/par: command words to look up right before the call
+	Unset bool     `json:"unset"` // setenv: os.Unsetenv(K) instead
 	// env-map entries with arbitrary bytes (hex name, hex value): empty name, '=' or NUL in a name, NUL or
 	// non-UTF-8 bytes in a value, very long values; merged into Emap
 	EmapOdd [][2]string `json:"emap_odd"`
@@ -358,7 +359,11 @@ func init() {
 				}
 				os.Setenv("VERIF_FS_EPOCH", o.Epoch)
 			case "setenv":
-				os.Setenv(o.K, o.V)
+				if o.Unset {
+					os.Unsetenv(o.K)
+				} else {
+					os.Setenv(o.K, o.V)
+				}
 				touched = append(touched, o.K)
 			case "mk":
 				// the closure is made HERE, under the environment and os.Stdout of this moment
